@@ -5,6 +5,7 @@ import (
 	"fmt"
 	"os"
 	"sort"
+	"strings"
 	"testing"
 
 	"pgregory.net/rapid"
@@ -96,6 +97,10 @@ func runVersionLock(c vlCase, classes map[string]bool) string {
 			}
 			classes["forced-start"] = true
 		} else if !legacy {
+			if err != nil && !strings.Contains(err.Error(), "hardfork check failed") {
+				// not a refusal: the environment (descriptors, disk) or another start-up step failed
+				return "harness: start-up failed for another reason than the version lock: " + err.Error()
+			}
 			want, why := refRefuse(ver, forks, s.Version)
 			got := err != nil
 			tracked := false
